@@ -67,6 +67,22 @@ SPECS["C09"] = dict(
                 params={"quick": {"MAXREC": 4}, "thorough": {"MAXREC": 5}})],
 )
 
+SPECS["C01"] = dict(
+    level="model_checking",
+    engine="E1 enum (+E3 for listeners and upstream reply paths)",
+    technique="bounded exhaustive enumeration of malformed inputs (all short strings, all <=2-byte deviations from a seed corpus, all pointer retargets) on the real decoder, "
+              "and of framing lies on every listener seam followed by a valid query",
+    claim="No input in the enumerated space (all strings of length <=2 after 6 header templates, all class-alphabet strings up to the bound at every name "
+          "position, every prefix / single-byte substitution / deletion / duplication / pointer retarget of 27 seed messages, pairs of substitutions in the "
+          "thorough tier) makes the decoder panic or loop, and every accepted message re-packs and re-decodes.",
+    trusted="Go runtime bounds checks turn out-of-bounds reads into panics, which the harness catches; 65535-byte inputs are represented by structure, not enumerated.",
+    rule="see evidence rule written by the harness",
+    assumptions=["inputs beyond 2 deviations from the seed corpus are not covered", "hang detection uses a 10 s no-progress watchdog confirmed by 5 re-runs"],
+    parts=[dict(name="decoder", pkg="internal/dnsmsg", run="TestVerifC01Decoder", engines=("choice", "report", "refdns"),
+                files=dict(DNSMSG_COMMON, **{"harness/dnsmsg/zz_verif_c01_test.go": "internal/dnsmsg/zz_verif_c01_test.go"}),
+                params={"quick": {"CLASSLEN": 5, "PAIRS": 0}, "thorough": {"CLASSLEN": 6, "PAIRS": 1}})],
+)
+
 
 # --------------------------------------------------------------------------------------------
 # Properties not (yet) claimed. Kept current: every property without a SPECS entry must be here.
